@@ -135,6 +135,9 @@ func main() {
 	case "tunfail":
 		scenarioTunFail(*stacks)
 		return
+	case "bindfault":
+		scenarioBindFault(*stacks)
+		return
 	case "sendinflight":
 		scenarioSendInFlight(*stacks)
 		return
